@@ -1348,6 +1348,7 @@ def config_scope(name_or_scope):
     The resulting config scope (a list of all active scope names, ordered from
     outermost to innermost).
   """
+  entered = False
   try:
     valid_value = True
     if isinstance(name_or_scope, list):
@@ -1362,6 +1363,7 @@ def config_scope(name_or_scope):
     # Append new_scope first. It will be popped in the finally block if an
     # exception is raised below.
     _SCOPE_MANAGER.enter_scope(new_scope)
+    entered = True
 
     scopes_are_valid = map(config_parser.MODULE_RE.match, new_scope)
     if not valid_value or not all(scopes_are_valid):
@@ -1370,7 +1372,9 @@ def config_scope(name_or_scope):
 
     yield new_scope
   finally:
-    _SCOPE_MANAGER.exit_scope()
+    # Nothing to pop if inspecting `name_or_scope` raised before the push.
+    if entered:
+      _SCOPE_MANAGER.exit_scope()
 
 
 _FnOrClsOrSelector = Union[Callable[..., Any], Type[Any], str]
